@@ -14,10 +14,18 @@ def mapLitTok (φ : Char → Char) : Tok → Tok
   | .lit .duration v => .lit .duration v
   | .lit .datetime v => .lit .datetime v
   | .lit k v => .lit k (v.map φ)
+  | .ident i => .ident ⟨i.name.map φ, i.ns.map (·.map φ)⟩
   | t => t
 
 def mapRes (φ : Char → Char) (x : Option (Tok × List Char)) : Option (Tok × List Char) :=
   x.map fun p => (mapLitTok φ p.1, p.2.map φ)
+
+theorem boolOrIdent_map (h : CaseMap env φ) (v : Str) : boolOrIdent (v.map φ) = mapLitTok φ (boolOrIdent v) := by
+  have e : (v.map φ).map asciiLower = v.map asciiLower := by
+    simp [List.map_map, Function.comp_def, h.low]
+  unfold boolOrIdent
+  rw [e]
+  split <;> rfl
 
 theorem litRules_map (h : CaseMap env φ) : ∀ f ∈ litRules env, ∀ s, f (s.map φ) = mapRes φ (f s) := by
   intro f hf s
@@ -32,8 +40,14 @@ theorem litRules_map (h : CaseMap env φ) : ∀ f ∈ litRules env, ∀ s, f (s.
   · simp only [rLit, scanTime_map h]; cases scanTime env s <;> rfl
   · simp only [rLit, scanDecimal_map h]; cases scanDecimal env s <;> rfl
   · simp only [rLit, scanInteger_map h]; cases scanInteger env s <;> rfl
-  · simp only [rLit, scanWord_map h "true".toList (by decide)]; cases scanWord env "true".toList s <;> rfl
-  · simp only [rLit, scanWord_map h "false".toList (by decide)]; cases scanWord env "false".toList s <;> rfl
+  · simp only [rBool, scanWord_map h "true".toList (by decide)]
+    cases scanWord env "true".toList s with
+    | none => rfl
+    | some x => simp [mapRes, boolOrIdent_map h]
+  · simp only [rBool, scanWord_map h "false".toList (by decide)]
+    cases scanWord env "false".toList s with
+    | none => rfl
+    | some x => simp [mapRes, boolOrIdent_map h]
   · simp only [rNull, scanWord_map h "null".toList (by decide)]; cases scanWord env "null".toList s <;> rfl
 
 theorem firstSome_map (fs : List Rule) (hfs : ∀ f ∈ fs, ∀ s, f (s.map φ) = mapRes φ (f s)) (s : List Char) :
@@ -100,6 +114,7 @@ theorem caseMap_lower : CaseMap E asciiLower where
     (fun c h => by rw [asciiLower_id h])
   durUp := lower_of_table (by decide +kernel) (fun c h => by rw [asciiLower_id h])
   up := lower_of_table (by decide +kernel) (fun c h => by rw [asciiLower_id h])
+  low := lower_of_table (by decide +kernel) (fun c h => by simp only [asciiLower_id h])
 
 theorem caseMap_upper : CaseMap E asciiUpper where
   space := upper_of_table (by decide +kernel) (fun c h => by rw [asciiUpper_id h])
@@ -119,5 +134,6 @@ theorem caseMap_upper : CaseMap E asciiUpper where
     (fun c h => by rw [asciiUpper_id h])
   durUp := upper_of_table (by decide +kernel) (fun c h => by rw [asciiUpper_id h])
   up := upper_of_table (by decide +kernel) (fun c h => by simp only [asciiUpper_id h])
+  low := upper_of_table (by decide +kernel) (fun c h => by rw [asciiUpper_id h])
 
 end OQ.CaseMap
